@@ -5,6 +5,7 @@ Model: `runTaskF` (executor.rs:187-229), `isDoneNow` (mod.rs:436-440), `pollNext
 import CruxVerif.Lemmas.RtTask
 import CruxVerif.Lemmas.K2Evict
 import CruxVerif.Lemmas.EvictComplete
+import CruxVerif.Lemmas.FreshUse
 namespace Props.C07
 open M.Rt
 
@@ -79,6 +80,35 @@ theorem evict_complete_dropped_request_partial (pn : Waker → Nat → World →
     (hfresh : w.holders w.nextSerial = 0) (hnw : w.woken.contains w.nextSerial = false) :
     (runTaskF (pollBlock pn (f + 1)) cid tid w).map (·.1) = some .cancelled :=
   dropped_request_evicts pn f cid tid w t env x l rest hg hfut hab hq hs hl hfresh hnw
+
+/-- GLOBAL INVARIANT (Lemmas/Fresh*.lean, ≈1000 lines: every operation of the model — wakes, drops, every poll including
+    hosted commands at every nesting depth, run_task, run_until_settled, poll_next, building commands, the shell's resolve /
+    drop / abort, the Core's executor and event loop — preserves it): in EVERY world the direct host of ANY command reaches
+    after ANY history, and in every world a Core hosting ANY app reaches, every waker serial that occurs anywhere is below
+    the counter `nextSerial`. Hence the serial `run_task` hands to a poll is held by nothing and flagged nowhere before the
+    poll: `World.holders` (the model of `Arc::strong_count` of the poll's waker) counts clones of THIS poll's waker only. -/
+theorem serials_fresh_direct (c : Cmd) (canon : Bool) (acts : List M.Hosts.Action) (os : List M.Hosts.Obs) (d : M.Hosts.Direct)
+    (h : M.Hosts.runDirect c canon acts = some (os, d)) :
+    SOk d.w ∧ d.w.holders d.w.nextSerial = 0 ∧ d.w.woken.contains d.w.nextSerial = false :=
+  ⟨M.Hosts.runDirect_fresh c canon acts os d h, (M.Hosts.runDirect_fresh c canon acts os d h).next_unheld⟩
+
+theorem serials_fresh_core (prog : M.Hosts.Prog) (canon : Bool) (acts : List M.Hosts.Action) (os : List M.Hosts.Obs)
+    (h : M.Hosts.CoreHost) (hr : M.Hosts.runCore prog canon acts = some (os, h)) :
+    SOk h.k.w ∧ h.k.w.holders h.k.w.nextSerial = 0 ∧ h.k.w.woken.contains h.k.w.nextSerial = false :=
+  ⟨M.Hosts.runCore_fresh prog canon acts os h hr, (M.Hosts.runCore_fresh prog canon acts os h hr).next_unheld⟩
+
+/-- COMPLETENESS of eviction for a dropped request, in REACHABLE worlds (no freshness hypothesis left): whatever command a
+    test holds and whatever it did so far, a task of it that is suspended at a one-shot request whose `Request` has been
+    dropped, and has not been aborted, is discarded as `Cancelled` by its next poll. -/
+theorem evict_complete_dropped_request_reachable (c : Cmd) (canon : Bool) (acts : List M.Hosts.Action)
+    (os : List M.Hosts.Obs) (d : M.Hosts.Direct) (hrun : M.Hosts.runDirect c canon acts = some (os, d))
+    (pn : Waker → Nat → World → Option (NextRes × World)) (f : Nat) (cid tid : Nat) (t : Task) (env : Env) (x l : Nat)
+    (rest : List Instr) (hg : (d.w.cmd cid).tasks.get? tid = some t) (hfut : t.fut = .mk env (.req x l) rest)
+    (hab : (d.w.getMeta t.serial).aborted = false)
+    (hq : (d.w.leaf l).queue = []) (hs : (d.w.leaf l).senderAlive = false) (hl : (d.w.leaf l).legacy = false) :
+    (runTaskF (pollBlock pn (f + 1)) cid tid d.w).map (·.1) = some .cancelled := by
+  have hf := (M.Hosts.runDirect_fresh c canon acts os d hrun).next_unheld
+  exact dropped_request_evicts pn f cid tid d.w t env x l rest hg hfut hab hq hs hl hf.1 hf.2
 
 /-- STATED, NOT PROVED: completeness of eviction — a command whose tasks wait only on shell requests reports done once
     all of them have been resolved or dropped. True of the DSL fragment modelled here (checked by the correspondence on
